@@ -316,6 +316,20 @@ def map_leaves(cname: str, v, fX):
     return map_holders(v, fX)
 
 
+RECURSIVE_FIELD_CONV = '''
+@dataclass
+class RBoxed:
+    node: "RNode"
+# element-level converters: the field conversion reaches the items through the list, i.e. the class is visited again,
+# inside its own visit, under another conversion
+def box(node: "RNode") -> RBoxed: return RBoxed(node)
+def unbox(boxed: RBoxed) -> "RNode": return boxed.node
+@dataclass
+class RNode:
+    v: int = 0
+    children: List["RNode"] = field(default_factory=list, metadata=conversion(deserialization=unbox, serialization=box))
+'''
+
 SPECIAL = '''
 from apischema.conversions import Conversion, LazyConversion, catch_value_error, reset_deserializers
 from apischema import identity
@@ -698,7 +712,32 @@ def special_worlds(st: infra.Stats):
         sys.modules.pop(m.__name__, None)
         apischema.cache.reset()
     _guard('locality of dynamic conversions', _sec_9)
-    st.count("special_worlds", 12)
+    def _sec_10():  # a field conversion on a recursive field whose converted type leads back to the class
+        m = exec_source(PRELUDE + RECURSIVE_FIELD_CONV)
+        tree = m.RNode(1, [m.RNode(2, [m.RNode(3)]), m.RNode(4)])
+        data = {"v": 1, "children": [{"node": {"v": 2, "children": [{"node": {"v": 3, "children": []}}]}}, {"node": {"v": 4, "children": []}}]}
+        for route, ser, des in (("typed", lambda: serialize(m.RNode, tree), lambda: deserialize(m.RNode, data)), ("untyped", lambda: serialize(tree), None), ("in list", lambda: serialize(List[m.RNode], [tree])[0], lambda: deserialize(List[m.RNode], [data])[0])):
+            st.case("recursive_field_conversion", route)
+            a = run(ser)
+            if a != ("ok", data):
+                viol("recursive_field_conversion", f"serialize ({route}) = {a}, expected the children boxed at every depth: {data}", direction="serialize", route=route)
+            if des is not None:
+                b = run(des)
+                if b != ("ok", tree):
+                    viol("recursive_field_conversion", f"deserialize ({route}) = {b}, expected {tree}", direction="deserialize", route=route)
+        unboxed = {"v": 1, "children": [{"v": 2, "children": []}]}
+        b = run(lambda: deserialize(m.RNode, unboxed))
+        if b[0] != "invalid":
+            viol("recursive_field_conversion", f"deserialize accepts the unconverted shape {unboxed}: {b}", direction="deserialize", route="unconverted shape")
+        for fn in (deserialization_schema, serialization_schema):
+            sch = run(lambda: fn(m.RNode))
+            ok = sch[0] == "ok" and '"node"' in json.dumps(sch[1])  # the items are boxed: objects with a `node` property
+            if not ok:
+                viol("recursive_field_conversion_schema", f"{fn.__name__}(RNode) does not go through RBoxed: {str(sch)[:300]}", route=fn.__name__)
+        sys.modules.pop(m.__name__, None)
+        apischema.cache.reset()
+    _guard('field conversion on a recursive field', _sec_10)
+    st.count("special_worlds", 13)
 
 
 
